@@ -104,6 +104,10 @@ def gen_spec(rng, thorough=False, force=None):
 			'ext_supply': (not has_pred[l]) or (rng.random() < force.get('pextsup', .08)),
 			'demand': demand, 'dis': dis,
 		}
+		if demand is not None and rng.random() < .2:
+			nodes[str(l)]['demand'] = demand[:1]; nodes[str(l)]['scalar_demand'] = True
+		if rng.random() < .2:
+			nodes[str(l)]['none_objects'] = True          # demand_source / disruption_process set to None where the node has none
 		# cost FUNCTIONS (callables) instead of rates, as polynomials the model can evaluate exactly
 		if rng.random() < force.get('pcostfn', .12):
 			nodes[str(l)]['hfn'] = [rng.choice(['0', '1/2', '1']), rng.choice(['0', '1', '2']), rng.choice(['0', '1/2', '1'])]
@@ -211,6 +215,10 @@ def build_py(spec, relabel=None):
 			n.inventory_policy = po_
 		if nd['demand'] is not None:
 			n.demand_source = DemandSource(type='D', demand_list=[num(x) for x in nd['demand']])
+			if nd.get('scalar_demand'):
+				n.demand_source = DemandSource(type='D', demand_list=num(nd['demand'][0]))          # one number: the same demand in every period
+		elif nd.get('none_objects'):
+			n.demand_source = None          # optional object attributes may be None
 			rd = nd.get('rdemand')
 			if rd:          # a random demand source (integer-valued, so the exact regime still applies to the realised demands)
 				n.demand_source = DemandSource(type='P', mean=rd['mean']) if rd['type'] == 'P' else (
@@ -220,6 +228,8 @@ def build_py(spec, relabel=None):
 			n.local_holding_cost_function = (lambda cs: (lambda x: sum(c * x ** k for k, c in enumerate(cs))))([float(F(c)) for c in nd['hfn']])
 		if nd.get('pfn'):
 			n.stockout_cost_function = (lambda cs: (lambda x: sum(c * x ** k for k, c in enumerate(cs))))([float(F(c)) for c in nd['pfn']])
+		if nd['dis'] is None and nd.get('none_objects'):
+			n.disruption_process = None
 		if nd['dis'] is not None:
 			n.disruption_process = DisruptionProcess(random_process_type='E', disruption_type=nd['dis']['type'],
 													 disruption_state_list=list(nd['dis']['list']))
